@@ -9,6 +9,9 @@ import warnings
 
 ROOT = os.path.dirname(os.path.dirname(os.path.abspath(__file__)))
 EVID = os.path.join(ROOT, "evidence")
+if os.environ.get("SOPHT_REPO", "/repo").rstrip("/") != "/repo":
+    # self-test runs against a mutated copy never touch the committed evidence
+    EVID = os.path.join(ROOT, "out", "mut_evidence")
 REPLAY = os.path.join(ROOT, "out", "replay")
 KNOWN = os.path.join(ROOT, "known_findings.json")
 
